@@ -233,3 +233,45 @@ def c06_spine_bool(p: int, c: int, d: int, g: int, pos: int, n: int, ul: bool) -
     bound: -N <= n <= N
     """
     return _spine("c06_spine_bool", p, c, d, g, pos, n, ul)
+
+
+@harness(
+    prop="C06",
+    cubes={"quick": {"p": ARITH, "c": ARITH, "d": [0]}, "thorough": {"p": range(15), "c": range(15), "d": [0, 1]}},
+    bounds={"quick": {"N": 9}, "thorough": {"N": 9}},
+    timeout={"quick": 200, "thorough": 900},
+    witness=[dict(p=3, c=2, d=0, g1=0, g2=0, pos=1, n=2)],
+    doc="parent p > child c whose BOTH operands are compound (g1, g2 symbolic over + - * / unary minus) > leaves: "
+        "compositions such as x/((a+b)*(c+d)) that no single (parent, child) triple shows",
+)
+def c06_both(p: int, c: int, d: int, g1: int, g2: int, pos: int, n: int) -> int:
+    """
+    bound: 0 <= g1 <= 4 and 0 <= g2 <= 4 and 0 <= pos <= 1
+    bound: -N <= n <= N
+    """
+    n = rep(n)
+    k1, k2 = ARITH[0], ARITH[0]
+    for i in range(5):
+        if g1 == i:
+            k1 = ARITH[i]
+        if g2 == i:
+            k2 = ARITH[i]
+    if pos >= arity(p) or arity(c) < 2:
+        return SKIP
+    a = node(k1, n, False, 0, None, ["x"])
+    b = node(k2, n, True, 0, None, ["y"])
+    if a is None or b is None:
+        return SKIP
+    child = mk(c, [a, b])
+    if child is None:
+        return SKIP
+    ops = []
+    for i in range(arity(p)):
+        if i == pos:
+            ops.append(child)
+        else:
+            ops.append(fld("s" + str(i)))
+    built = mk(p, ops)
+    if built is None:
+        return SKIP
+    return judge(built[0], built[1], "c06_both", p=p, c=c, d=d, g1=g1, g2=g2, pos=pos, n=n)
